@@ -214,7 +214,7 @@ def _call(mon, case, which, ref, hyp, **over):
         if case["form"] == "module":
             mon.stat("form_module")
             cls = M.ErrorRate if which == "error_rate" else M.PrefixErrorRates
-            return mon.lib(which, lambda: LY.travelled(cls(**kw), case["R"], case["H"], len(case["ref"]))(ref, hyp), documented=documented)
+            return mon.lib(which, lambda: LY.travelled(G.build_module(cls, kw, case), case["R"], case["H"], len(case["ref"]))(ref, hyp), documented=documented)
         fn = getattr(F, which)
         return mon.lib(which, lambda: fn(ref, hyp, **kw), documented=documented)
 
@@ -355,7 +355,7 @@ def _call_loss(mon, case, lp, ref, hyp):
         if case["form"] == "module":
             mon.stat("form_module")
             return mon.lib("minimum_error_rate_loss",
-                           lambda: LY.travelled(M.MinimumErrorRateLoss(**kw), case["R"], case["H"])(lp, ref, hyp, warn=G.warn_flag(case)))
+                           lambda: LY.travelled(G.build_module(M.MinimumErrorRateLoss, kw, case), case["R"], case["H"])(lp, ref, hyp, warn=G.warn_flag(case)))
         return mon.lib("minimum_error_rate_loss",
                        lambda: F.minimum_error_rate_loss(lp, ref, hyp, warn=G.warn_flag(case), **kw))
 
